@@ -17,11 +17,13 @@ package h2
 
 import (
 	"bytes"
+	"context"
 	"crypto/tls"
 	"crypto/x509"
 	"encoding/hex"
 	"fmt"
 	"io"
+	"net"
 	"net/url"
 	"sync"
 
@@ -58,10 +60,23 @@ func (c *Config) Proxy(closing chan bool, cc io.ReadWriter, url *url.URL) error 
 	if c.EnableDebugLogs {
 		log.Infof("\u001b[1;35mProxying %v with HTTP/2\u001b[0m", url)
 	}
-	sc, err := tls.Dial("tcp", url.Host, &tls.Config{
+	// Shutdown also ends the wait for an upstream that accepts the connection and then stays
+	// silent: nothing else bounds the dial and the TLS handshake.
+	dialCtx, cancelDial := context.WithCancel(context.Background())
+	dialed := make(chan struct{})
+	go func() {
+		select {
+		case <-closing:
+			cancelDial()
+		case <-dialed:
+		}
+	}()
+	sc, err := dialTLS(dialCtx, "tcp", url.Host, &tls.Config{
 		RootCAs:    c.RootCAs,
 		NextProtos: []string{"h2"},
 	})
+	close(dialed)
+	cancelDial()
 	if err != nil {
 		return fmt.Errorf("connecting h2 to %v: %w", url, err)
 	}
@@ -157,6 +172,13 @@ func (c *Config) Proxy(closing chan bool, cc io.ReadWriter, url *url.URL) error 
 	wg.Wait()
 	close(readersDone)
 	return nil
+}
+
+// dialTLS connects to the server and completes the TLS handshake, or gives up when ctx is
+// cancelled.
+func dialTLS(ctx context.Context, network, addr string, cfg *tls.Config) (net.Conn, error) {
+	d := tls.Dialer{Config: cfg}
+	return d.DialContext(ctx, network, addr)
 }
 
 // forwardPreface forwards the connection preface from the client to the server.
